@@ -1511,7 +1511,7 @@ class Interp:
         b = self.eval(n.right, env)
         if isinstance(a, VObj) or isinstance(b, VObj):
             opname = {ast.Add: "__add__", ast.Sub: "__sub__", ast.BitOr: "__or__", ast.BitAnd: "__and__", ast.Mult: "__mul__"}.get(type(n.op))
-            if opname and isinstance(a, VObj) and a.cls.find_method(opname):
+            if opname and isinstance(a, VObj) and (a.cls.find_method(opname) or self.reg.nominal_methods.get(a.cls.qualname, {}).get(opname)):
                 return self.call(self.getattr(a, opname), [b], {})
             raise OutOfSubset("operator on objects")
         return ops.binop(self, n.op, a, b)
